@@ -26,18 +26,36 @@ struct Case {
     cfg: CfgCase,
     doc: String,
     origin: String,
+    /// the generator's ABSTRACT schema model (merged, with the built-in scalars): the reference side of the O stream
+    /// (Coercible, Explicit_c, value domain) is computed from it, not from the real pipeline's resolved document
+    model: Option<TsDoc>,
+    model_sdl: Option<String>,
+}
+
+fn with_builtin_scalars(doc: &TsDoc) -> TsDoc {
+    let mut d = doc.clone();
+    for b in BUILTIN_SCALARS {
+        if d.type_def(b).is_none() {
+            d.items.push(TsItem::TypeDef(TypeDef::new(TypeKind::Scalar, b)));
+        }
+    }
+    d
 }
 
 impl Case {
     fn to_json(&self) -> Value {
-        json!({"sdl": self.sdl, "cfg": self.cfg.to_json(), "doc": self.doc, "origin": self.origin})
+        json!({"sdl": self.sdl, "cfg": self.cfg.to_json(), "doc": self.doc, "origin": self.origin, "model_sdl": self.model_sdl})
     }
     fn from_json(v: &Value) -> Case {
+        let model_sdl = v["model_sdl"].as_str().map(|s| s.to_string());
+        let model = model_sdl.as_ref().and_then(|m| with_schema(&[m.clone()], |resolved, _| from_real_tsdoc(resolved)).ok());
         Case {
             sdl: v["sdl"].as_str().unwrap_or("").to_string(),
             cfg: CfgCase::from_json(&v["cfg"]),
             doc: v["doc"].as_str().unwrap_or("").to_string(),
             origin: v["origin"].as_str().unwrap_or("replay").to_string(),
+            model,
+            model_sdl,
         }
     }
 }
@@ -53,6 +71,8 @@ fn corpus() -> Vec<Case> {
         cfg: CfgCase { scalars: vec![], optional: Some(false), runtime: false },
         doc: "query Q($a: Int) { q(a: $a) }\n".into(),
         origin: "corpus:option-off-nullable-variable".into(),
+        model: None,
+        model_sdl: None,
     });
     for (i, optional) in [None, Some(true), Some(false)].into_iter().enumerate() {
         for (j, sc) in [
@@ -63,7 +83,7 @@ fn corpus() -> Vec<Case> {
         .into_iter()
         .enumerate()
         {
-            out.push(Case { sdl: CORPUS_SDL.into(), cfg: CfgCase { scalars: vec![("Date".into(), sc)], optional, runtime: false }, doc: doc.into(), origin: format!("corpus:matrix:{i}:{j}") });
+            out.push(Case { sdl: CORPUS_SDL.into(), cfg: CfgCase { scalars: vec![("Date".into(), sc)], optional, runtime: false }, doc: doc.into(), origin: format!("corpus:matrix:{i}:{j}"), model: None, model_sdl: None });
         }
     }
     out.push(Case {
@@ -71,6 +91,8 @@ fn corpus() -> Vec<Case> {
         cfg: CfgCase { scalars: vec![], optional: Some(true), runtime: false },
         doc: "query Q($i: In!, $d: D, $ds: [[D!]!]!) { q(i: $i, d: $d) }\n".to_string(),
         origin: "corpus:directive-scalar".into(),
+        model: None,
+        model_sdl: None,
     });
     // scalar text that clashes with an input type name
     out.push(Case {
@@ -78,6 +100,8 @@ fn corpus() -> Vec<Case> {
         cfg: CfgCase { scalars: vec![("S".into(), ScalarCfg::Single("Range".into()))], optional: None, runtime: false },
         doc: "query Q($s: S!, $r: Range!, $rs: [Range!]) { q(s: $s, r: $r) }\n".into(),
         origin: "corpus:clash-input-name".into(),
+        model: None,
+        model_sdl: None,
     });
     out
 }
@@ -118,7 +142,14 @@ fn generated(rng: &mut Rng, i: usize) -> Case {
         }
         (format!("query Crafted{i}({}) {{ __typename }}\n", vars.join(", ")), format!("generated:{i}:crafted"))
     };
-    Case { sdl: schema.sdl(), cfg: CfgCase::from_project(&pc), doc, origin }
+    let mut origin = origin;
+    let sdl = if i % 3 == 1 {
+        origin.push_str(":extensions");
+        nvh::render::tsdoc_text(&split_into_extensions(rng, &schema))
+    } else {
+        schema.sdl()
+    };
+    Case { sdl, cfg: CfgCase::from_project(&pc), doc, origin, model: Some(with_builtin_scalars(&schema.doc)), model_sdl: Some(schema.sdl()) }
 }
 
 fn capitalize(s: &str) -> String {
@@ -191,7 +222,14 @@ fn run_case(rep: &mut Report, drv: &mut Driver, case: &Case) {
             return;
         }
     };
-    let doc_sexp = strip_pos(&tsdoc.to_sexp());
+    // reference side: the generator's abstract model when the case has one
+    let ref_doc: TsDoc = case.model.clone().unwrap_or_else(|| tsdoc.clone());
+    let doc_sexp = strip_pos(&ref_doc.to_sexp());
+    rep.count(if case.model.is_some() { "reference:abstract-model" } else { "reference:real-resolved-document(corpus text)" });
+    if case.origin.contains(":extensions") {
+        rep.count("feature:schema-written-with-extensions");
+    }
+    let tsdoc = ref_doc;
     // module specifier of the schema import
     let schema_module = op_tree
         .args()
